@@ -14,6 +14,7 @@ stream family: every primitive performs exactly one stream operation whose short
 count is observable (read/get/write/put/ignore+gcount) and returns the stream-state
 test; seekg/seekp are not observable.   fd family: success only under ret == 1.
 """
+import re
 from . import facts, ir, rw, symx
 from .symx import Poly, StatusVal, Cmp
 
@@ -287,6 +288,58 @@ def check_stream_class(chk, db, rect, kind, rule, rule_status):
                 why.append('can fail (%r)' % (p.ret,))
         chk.decide(not why, rule, where, '%s: %s' % (label, '; '.join(sorted(set(why))) if why else 'no effect on the stream, always succeeds'),
                    function=ir.fn_label(m))
+    # Skip of a writer emits `padding_bytes` copies of the padding VALUE: every byte handed to the stream is that parameter
+    if kind == 'writer':
+        for m in one_per_pattern(methods, {'Skip'}):
+            if len(m['params']) < 2:
+                continue
+            where = facts.site(m)
+            label = '%s::Skip' % rect.replace('nop::', '')
+            pv = m['params'][1]
+            why = []
+            unknown = []
+            locals_ = {}
+            for y in ir.walk(m['body']):
+                if y.get('k') == 'decl':
+                    for v in y['vars']:
+                        if 'id' in v:
+                            locals_[v['id']] = v
+
+            def is_pv(x):
+                x = ir.strip_all_casts(x)
+                return x.get('k') == 'ref' and x.get('id') == pv.get('id')
+            for c in ir.calls(m['body']):
+                n = ir.callee_name(c)
+                if n == 'put' and c.get('args'):
+                    if not is_pv(c['args'][0]):
+                        why.append('put() writes %s, not the padding value' % ir.show(c['args'][0])[:40])
+                elif n == 'write' and len(c.get('args', [])) == 2:
+                    b = ir.strip_all_casts(c['args'][0])
+                    while b.get('k') in ('un',) and b.get('op') == '&':
+                        b = ir.strip_all_casts(b['e'])
+                    while b.get('k') == 'idx':
+                        b = ir.strip_all_casts(b['b'])
+                    if b.get('k') == 'call' and ir.callee_name(b) in ('data', 'c_str') and 'obj' in b:
+                        b = ir.strip_all_casts(b['obj'])
+                    v = locals_.get(b.get('id')) if b.get('k') == 'ref' else None
+                    init = ir.strip_all_casts(v['init']) if v and v.get('init') is not None else None
+                    m_ext = re.search(r'\[(\d+)\]$', (v or {}).get('t', '').strip())
+                    if v is None or init is None:
+                        unknown.append('write() from %s' % ir.show(c['args'][0])[:40])
+                    elif init.get('k') == 'ilist' and m_ext:
+                        els = init.get('el', [])
+                        if len(els) < int(m_ext.group(1)) or not all(is_pv(x) for x in els):
+                            why.append('write() from an array of %s elements of which %d are initialised with the padding value (the rest are zero)' % (
+                                m_ext.group(1), len([x for x in els if is_pv(x)])))
+                    elif init.get('k') == 'ctor' and len(init.get('args', [])) >= 2 and is_pv(init['args'][1]):
+                        pass        # container(count, padding_value)
+                    else:
+                        unknown.append('write() from %s' % (v.get('n') or '?'))
+            if unknown and not why:
+                chk.unanalysable(rule, where, '%s: cannot tell what bytes %s emits' % (label, '; '.join(unknown)))
+            else:
+                chk.decide(not why, rule, where + ' value', '%s: %s' % (label, '; '.join(sorted(set(why))) if why else 'every byte written is the padding value'),
+                           function=ir.fn_label(m))
     for m in one_per_pattern(methods, prims):
         where = facts.site(m)
         label = '%s::%s(%s)' % (rect.replace('nop::', ''), m['n'], ', '.join(p['t'] for p in m['params']))
